@@ -24,6 +24,9 @@ CLAIMED = {
     "C06": ("fault_enumeration", "runtime monitor with fault injection at every radio-call position; every frame handed to the radio is decoded by the reference codec and counters checked for strict increase",
             "Base histories over the event alphabet are re-run once per radio call with an injected error at that call (plus sampled double faults and near-2^32 sessions) on nb, async and async+ClassC front-ends; the full counter of every uplink is recovered by MIC verification and must strictly increase until SessionExpired.",
             "Trusts the reference codec; a frame passed to tx counts as handed to the radio even if the call then errors; guarantee ends once expiry was reported.", "6/C06"),
+    "C09": ("exploration", "runtime monitor: every TxConfig handed to the radio judged against the hook snapshot taken immediately before the call and independent regional tables; scripted RNG enumerates every start value so each possible channel choice is observed; RNG-draw budget as bounded-progress trap",
+            "Channel-plan states reached by histories of LinkADRReq/NewChannelReq/DlChannelReq/CFList/set_datarate/ADR back-off bursts/join bias, five board (power, gain) combinations, three front-ends, nine regions; per state one uplink for each scripted RNG start value 0..127 and 16 from-scratch replays; join attempts incl. biases and re-joins.",
+            "Regional tables (MaxEIRP, channel formulae, rate tables) transcribed from RP002; application precondition: set_datarate only to rates the mask leaves a channel for.", "6/C09"),
     "C10": ("exploration", "runtime monitor at the radio boundary: every RX1/RX2/Class C RfConfig and timer request compared with independent regional tables applied to the parameters in force (hook snapshot) and the TxConfig actually used",
             "Grid of region x front-end x uplink DR x RX1DROffset x RxDelay class with RX2 overrides, DlChannel remaps, lead/TX-done times, all 72 fixed-plan channels via the scripted RNG, join attempts with forced join rates, and histories with parameter changes in flight.",
             "Regional tables are transcriptions (set-valued where editions differ); parameters in force come from the verif-hooks snapshot.", "6/C10"),
